@@ -8,6 +8,8 @@
 (*   exact value  (the value scaled by 2^(bias+P-1) is an integer < 2^18):  floor/ceil/trunc/round/rint by       *)
 (*   integer division, fmod/remainder by  %  on the scaled integers, nextafter by "no value in between",         *)
 (*   UlpLE by the integer key, fdim by subtraction.                                                              *)
+(* Mode "toy3": a 1+4+6 bit format whose fraction is carried in THREE limbs (the structure used for the x87      *)
+(*   80-bit format): all 2048 values, rounding to integer / nextafter / order against the exact values.           *)
 (* Mode "f32": the real binary32 format on the boundary domain (every sign and exponent x boundary mantissas):   *)
 (*   algebraic laws of the exact operators, and export of the table (one GEN line per value) that                *)
 (*   harness/float_driver.cpp replays through the implementation.                                               *)
@@ -43,8 +45,18 @@ YDom == IF Mode = "f32" THEN Small32
         ELSE IF Tier = "quick" THEN {v \in ToyValues : (v.h * Pow2(F.W) + v.l) \in {0, 1, 2, 5, 8, 11, 15}}
         ELSE ToyValues
 
-Init == k = "i" /\ x \in Seeds /\ y = x
-Next ==
+\* Mode "toy3": the three-limb format (x87 structure) - values are [s, e, m = <<m1, m2, m3>>]
+Toy3Values == {NV(s, e, <<a, b, c>>) : s \in {0, 1}, e \in 0..Toy3.emax, a \in 0..3, b \in 0..3, c \in 0..3}
+Toy3Y == {v \in Toy3Values : v.m \in {<<0, 0, 0>>, <<0, 0, 1>>, <<2, 0, 0>>, <<1, 3, 3>>, <<3, 3, 3>>}}
+Init3 == k = "i" /\ x \in {NV(s, e, <<0, 0, 0>>) : s \in {0, 1}, e \in 0..Toy3.emax} /\ y = x
+Next3 ==
+    \/ /\ k = "i" /\ k' = "u"
+       /\ \E a \in 0..3, b \in 0..3, c \in 0..3 : x' = NV(x.s, x.e, <<a, b, c>>)
+       /\ y' = x'
+    \/ /\ k = "u" /\ k' = "b" /\ x' = x /\ y' \in Toy3Y
+
+Init == IF Mode = "toy3" THEN Init3 ELSE k = "i" /\ x \in Seeds /\ y = x
+Next == IF Mode = "toy3" THEN Next3 ELSE
     \/ /\ k = "i" /\ k' = "u"
        /\ \E m \in Mants : x' = V(x.s, x.e, m.h, m.l)
        /\ y' = x'
@@ -135,9 +147,47 @@ ToyMinMaxOK ==
         /\ FMinOK(F, x, y, IF SVal(y) < SVal(x) THEN y ELSE x)
         /\ \A r \in {x, y} : (FMaxOK(F, x, y, r) => Le(x, r) /\ Le(y, r)) /\ (FMinOK(F, x, y, r) => Le(r, x) /\ Le(r, y))
 
-ToyLaws == Mode # "f32" =>
+ToyLaws == Mode \in {"toy1", "toy2"} =>
     /\ (k = "u" => ToyRoundOK /\ ToyNeighbourOK)
     /\ k = "b" => ToyFModOK /\ ToyRemainderOK /\ ToyNextAfterOK /\ ToyFDimOK /\ ToyOrderOK /\ ToyMinMaxOK
+
+(* ------------------------------------- the three-limb toy format ------------------------------------- *)
+N3 == Toy3
+NMantInt(v) == v.m[1] * 16 + v.m[2] * 4 + v.m[3]
+NMagVal(v) == (IF v.e = 0 THEN NMantInt(v) ELSE NMantInt(v) + 64) * Pow2((IF v.e = 0 THEN 1 ELSE v.e) - 1)
+NSVal(v) == IF v.s = 1 THEN -NMagVal(v) ELSE NMagVal(v)
+NUnit == Pow2(N3.bias + N3.P - 1)
+NDeclInt(mode, v) ==
+    LET a == AbsI(v) q == a \div NUnit r == a % NUnit IN
+    CASE mode = "down" -> v \div NUnit
+      [] mode = "up" -> -((-v) \div NUnit)
+      [] mode = "zero" -> SgnI(v) * q
+      [] mode = "away" -> SgnI(v) * (IF 2 * r >= NUnit THEN q + 1 ELSE q)
+      [] mode = "even" -> SgnI(v) * (IF 2 * r > NUnit \/ (2 * r = NUnit /\ q % 2 = 1) THEN q + 1 ELSE q)
+Toy3RoundOK ==
+    \A mode \in Modes :
+        LET r == NRoundInt(N3, x, mode) IN
+        IF NIsNaN(N3, x) THEN NIsNaN(N3, r)
+        ELSE IF NIsInf(N3, x) THEN r = x
+        ELSE /\ NWellFormed(N3, r) /\ NIsFinite(N3, r)
+             /\ NSVal(r) = NDeclInt(mode, NSVal(x)) * NUnit
+             /\ (NIsZero(r) => r.s = x.s)
+N3NonNaN == {v \in Toy3Values : ~NIsNaN(N3, v)}
+NUp(v) == NNextAfter(N3, v, NInf(N3, 0))
+NDn(v) == NNextAfter(N3, v, NInf(N3, 1))
+Toy3NeighbourOK ==
+    ~NIsNaN(N3, x) =>
+        /\ NWellFormed(N3, NUp(x)) /\ NWellFormed(N3, NDn(x)) /\ ~NIsNaN(N3, NUp(x)) /\ ~NIsNaN(N3, NDn(x))
+        /\ (x # NInf(N3, 0)) => (NLt(x, NUp(x)) /\ \A z \in N3NonNaN : ~(NLt(x, z) /\ NLt(z, NUp(x))))
+        /\ (x # NInf(N3, 1)) => (NLt(NDn(x), x) /\ \A z \in N3NonNaN : ~(NLt(NDn(x), z) /\ NLt(z, x)))
+        /\ (NIsZero(NUp(x)) => NUp(x).s = x.s) /\ (NIsZero(NDn(x)) => NDn(x).s = x.s)
+Toy3PairOK ==
+    (~NIsNaN(N3, x) /\ ~NIsNaN(N3, y)) =>
+        /\ (NIsFinite(N3, x) /\ NIsFinite(N3, y)) => (NLt(x, y) <=> NSVal(x) < NSVal(y))
+        /\ LET r == NNextAfter(N3, x, y) IN
+           IF NNumEq(x, y) THEN r = y ELSE IF NLt(x, y) THEN r = NUp(x) /\ NLe(r, y) ELSE r = NDn(x) /\ NLe(y, r)
+        /\ (~(NIsZero(x) /\ NIsZero(y))) => (NFMaxOK(N3, x, y, IF NLt(x, y) THEN y ELSE x) /\ NFMinOK(N3, x, y, IF NLt(y, x) THEN y ELSE x))
+Toy3Laws == Mode = "toy3" => CASE k = "u" -> Toy3RoundOK /\ Toy3NeighbourOK [] k = "b" -> Toy3PairOK [] OTHER -> TRUE
 
 (* ----------------------------------------- laws on binary32 ----------------------------------------- *)
 Neg(v) == [v EXCEPT !.s = 1 - v.s]
